@@ -53,8 +53,9 @@ class Gen:
     def topic(self):
         return self.r.choice(TOPICS + TOPICS + PATTERNS)
     # ---- one random API call (as text)
-    def call(self, depth, in_evt):
-        r = self.r; x = r.random(); m = self.m(); F = self.focus
+    def call(self, depth, in_evt, me=None):
+        r = self.r; x = r.random(); F = self.focus
+        m = me if (me is not None and r.random() < 0.65) else self.m()
         w = lambda tag, base: base * (4 if tag in F else 1)
         table = [
             (w('life', 6), lambda: r.choice(['start', 'stop', 'pause', 'resume']) + ' %d' % m),
@@ -73,11 +74,12 @@ class Gen:
             (w('batch', 2), lambda: 'batchtimeout %d %d' % (m, r.choice([0] + BATCH_NS))),
             (w('tb', 2), lambda: 'tb %d %d %d' % (m, r.choice([0, 1, 2, 5, 1000]), r.choice([0, 1, 2, 3, 10]))),
             (w('src', 4), lambda: self.srcreg(m)),
-            (w('src', 3), lambda: 'srcdereg %d %s %d' % (m, *self.srckey())),
+            (w('src', 3), lambda: self.srcdereg(m)),
             (w('src', 2), lambda: 'srclen %d %d' % (m, r.choice([0, 1, 2, 3, 4, 7, 8, 8]))),
-            (w('ctx', 1), lambda: r.choice(['ctxlen', 'stats', 'finalize', 'quit %d' % r.randint(0, 9), 'ctxreg 0', 'ctxdereg', 'dispatch', 'settick %d' % r.choice([0, 7000000000])])),
+            (w('ctx', 1), lambda: r.choice(['ctxlen', 'stats', 'finalize', 'quit %d' % r.randint(0, 9), 'ctxreg 0', 'ctxdereg', 'settick %d' % r.choice([0, 7000000000])]
+                                           + (['dispatch'] if me is None and depth == 0 else []))),   # no re-entrant dispatch from callbacks (outside the documented use)
             (1, lambda: 'ref %d' % m), (1, lambda: 'unref %d' % m),
-            (1, lambda: 'errno %d' % r.choice([2, 4, 11, 13, 22, 32])),
+            (w('errno', 1), lambda: 'errno %d' % r.choice([2, 4, 11, 13, 22, 32])),
             (1, lambda: 'live'),
         ]
         if in_evt:
@@ -90,11 +92,19 @@ class Gen:
         return table[0][1]()
     def srckey(self):
         r = self.r; k = r.choice(['fd', 'tmr', 'tmr', 'sgn', 'path', 'thresh', 'task'])
-        key = {'fd': r.randint(0, 5), 'tmr': r.choice(TMR_KEYS + [0]), 'sgn': r.choice(SIGS + [0]),
+        key = {'fd': None, 'tmr': r.choice(TMR_KEYS + [0]), 'sgn': r.choice(SIGS + [0]),
                'path': r.randint(0, 4), 'thresh': r.choice([0, 2000000001, 2000000002]), 'task': r.randint(1, 3)}[k]
         return k, key
+    def fd_of(self, m):
+        # each module has its own descriptors: one descriptor cannot be polled twice by one context
+        return 2 * m + self.r.randint(0, 1)
+    def srcdereg(self, m):
+        k, key = self.srckey()
+        if k == 'fd': key = self.fd_of(m)
+        return 'srcdereg %d %s %d' % (m, k, key)
     def srcreg(self, m):
         r = self.r; k, key = self.srckey()
+        if k == 'fd': key = self.fd_of(m)
         if k == 'task': k, key = 'tmr', r.choice(TMR_KEYS)
         if k == 'sgn' and key:
             if self.sig_owner.setdefault(key, m) != m: key = 0
@@ -105,15 +115,20 @@ class Gen:
         return 'srcreg %d %s %d %d %d %d %d' % (m, k, key, p, 1 if r.random() < 0.25 else 0, ac, r.randint(1, 99))
     def env(self):
         r = self.r; x = r.random()
-        if x < 0.5: return 'fdwrite %d' % r.randint(0, 5)
+        regs = [c.split() for p in self.procs.values() for c in p if c.startswith('srcreg')]
+        if regs and x < 0.7:
+            t = r.choice(regs)
+            if t[2] == 'fd': return 'fdwrite %s' % t[3]
+            if t[2] in ('tmr', 'sgn') and t[3] != '0': return 'fire %s %s %s' % (t[1], t[2], t[3])
+        if x < 0.5: return 'fdwrite %d' % r.randint(0, 9)
         if x < 0.75: return 'fire %d tmr %d' % (self.m(), r.choice(TMR_KEYS + BATCH_NS + [1000000000, 500000000, 200000000, 1000000]))
         if x < 0.9: return 'fire %d sgn %d' % (self.m(), r.choice(SIGS))
         return 'firetick'
     def newproc(self, calls):
         p = self.next_proc; self.next_proc += 1; self.procs[p] = calls; return p
-    def cb_body(self, depth, in_evt):
+    def cb_body(self, depth, in_evt, me=None):
         n = self.r.choice([0, 0, 1, 1, 2, 3])
-        return [self.call(depth, in_evt) for _ in range(n)]
+        return [self.call(depth, in_evt, me) for _ in range(n)]
     def build_callbacks(self):
         r = self.r
         for m in range(self.nm):
@@ -122,7 +137,7 @@ class Gen:
                     if kind == 'evt' and h > 0 and r.random() < 0.6: continue
                     specs = []
                     for _ in range(r.randint(1, 6)):
-                        body = self.cb_body(1, kind == 'evt') if r.random() < (0.6 if 'reent' in self.focus else 0.35) else []
+                        body = self.cb_body(1, kind == 'evt', m) if r.random() < (0.6 if 'reent' in self.focus else 0.35) else []
                         p = self.newproc(body) if body else 0
                         retv = 1 if (kind in ('stop', 'evt') or r.random() < 0.75) else 0
                         specs.append('%d:%d' % (p, retv))
@@ -139,6 +154,8 @@ class Gen:
             if late and x < 0.1: prog.append('reg %d' % late.pop())
             elif x < 0.3: prog.append('dispatch')
             elif x < 0.4: prog += [self.env(), 'dispatch']
+            elif x < 0.45 and ('ps' in self.focus or 'pill' in self.focus):
+                prog += [self.call(0, False) for _ in range(r.randint(2, 5))] + [self.env(), 'dispatch']
             elif mode == 'loop' and x < 0.46:
                 prog.append('loop'); prog += [self.env() for _ in range(r.randint(0, 4))]
             else: prog.append(self.call(0, False))
@@ -183,4 +200,117 @@ def gen_case(rng, P, focus=None, mode='dispatch'):
     g = Gen(rng, P, focus)
     g.build_callbacks()
     g.program(mode)
+    return 'core', g.lines()
+
+# ---------------------------------------------------------------- scenario generators (aimed at one mechanism each)
+def _base(rng, P, nm, hooks=False, flags=None):
+    g = Gen(rng, P, set(), nm)
+    for i, m in enumerate(g.mods):
+        m.update(replace=0, persist=0, denyctx=0, denypub=0, denysub=0)
+        if not hooks: m.update(heval=0, hstart=0, hstop=0)
+    return g
+
+def gen_sources_case(rng, P):
+    """descriptor / timer / signal sources, one-shot or not, several ready in one batch, pause/stop/quit around pending events"""
+    g = _base(rng, P, rng.randint(1, 3), hooks=rng.random() < 0.3)
+    if any(m['heval'] or m['hstart'] or m['hstop'] for m in g.mods): g.build_callbacks()
+    prog = ['ctxreg 1'] + ['reg %d' % m for m in range(g.nm)] + ['dispatch']
+    regs = []
+    for m in range(g.nm):
+        for _ in range(rng.randint(1, 4)):
+            k = rng.choice(['fd', 'fd', 'tmr', 'sgn'])
+            key = {'fd': g.fd_of(m), 'tmr': rng.choice(TMR_KEYS), 'sgn': rng.choice(SIGS)}[k]
+            if k == 'sgn' and g.sig_owner.setdefault(key, m) != m: continue
+            one = 1 if rng.random() < 0.3 else 0
+            prog.append('srcreg %d %s %d %d %d 0 %d' % (m, k, key, rng.choice([0, 0, 3]) if k == 'fd' else rng.choice([0, 1, 2, 3]), one, rng.randint(1, 99)))
+            regs.append((m, k, key))
+    handler_procs = []
+    for m in range(g.nm):
+        specs = []
+        for _ in range(rng.randint(2, 6)):
+            body = []
+            if rng.random() < 0.4:
+                body = [rng.choice(['pause %d' % g.m(), 'stop %d' % g.m(), 'quit %d' % rng.randint(1, 9), 'errno %d' % rng.choice([2, 4, 11, 22]),
+                                    'srcdereg %d %s %d' % rng.choice(regs) if regs else 'live', 'srclen %d 8' % m, 'dereg %d' % g.m(), 'resume %d' % g.m()])]
+            specs.append('%d:1' % (g.newproc(body) if body else 0))
+        g.cbs = [c for c in g.cbs if not c.startswith('cb %d evt 0 ' % m)] + ['cb %d evt 0 %s' % (m, ' '.join(specs))]
+    def fire(reg):
+        m, k, key = reg
+        return 'fdwrite %d' % key if k == 'fd' else 'fire %d %s %d' % (m, k, key)
+    for _ in range(rng.randint(3, 10)):
+        x = rng.random()
+        if regs and x < 0.55: prog += [fire(rng.choice(regs)) for _ in range(rng.choice([1, 1, 2, 3, 5]))] + ['dispatch']
+        elif x < 0.65: prog.append(rng.choice(['pause', 'resume', 'stop', 'start']) + ' %d' % g.m())
+        elif x < 0.75 and regs: prog.append('srclen %d %d' % (rng.choice(regs)[0], rng.choice([1, 2, 3, 8])))
+        elif x < 0.8 and regs: prog += ['loop'] + [fire(rng.choice(regs)) for _ in range(rng.randint(1, 4))]
+        elif x < 0.85: prog.append('errno %d' % rng.choice([2, 4, 11, 13]))
+        else: prog.append('dispatch')
+    prog += ['quit 7', 'dispatch', 'dispatch'] + ['srclen %d 8' % m for m in range(g.nm)] + ['live'] + ['dereg %d' % m for m in range(g.nm)] + ['ctxdereg', 'live']
+    g.procs[1] = prog
+    return 'core', g.lines()
+
+def gen_batch_case(rng, P):
+    """one recipient with a batch size / timeout and subscriptions of every priority; arrivals in every order"""
+    g = _base(rng, P, 2)
+    prog = ['ctxreg 1', 'reg 0', 'reg 1', 'start 0', 'start 1']
+    subs = []
+    for t, p in zip(rng.sample(TOPICS, 3), [1, 2, 3]):
+        prog.append('sub 1 %d %d 0 %d' % (t, p, 10 + p)); subs.append(t)
+    if rng.random() < 0.5: prog.append('srcreg 1 fd %d 0 0 0 44' % g.fd_of(1))
+    if rng.random() < 0.8: prog.append('batchsize 1 %d' % rng.choice([1, 2, 3, 5]))
+    tns = 0
+    if rng.random() < 0.5: tns = rng.choice(BATCH_NS); prog.append('batchtimeout 1 %d' % tns)
+    for _ in range(rng.randint(3, 14)):
+        x = rng.random()
+        if x < 0.55: prog.append('publish 0 %d %d 0' % (rng.choice(subs), g.newdata()))
+        elif x < 0.65: prog.append('tell 0 1 %d 0' % g.newdata())
+        elif x < 0.72: prog.append('fdwrite %d' % g.fd_of(1))
+        elif x < 0.8 and tns: prog.append('fire 1 tmr %d' % tns)
+        elif x < 0.86: prog.append(rng.choice(['batchsize 1 %d' % rng.choice([0, 1, 2, 4]), 'batchtimeout 1 %d' % rng.choice([0] + BATCH_NS)]))
+        elif x < 0.9: prog.append(rng.choice(['pause 1', 'resume 1', 'stop 1', 'start 1']))
+        prog.append('dispatch') if rng.random() < 0.7 else None
+    prog += ['dispatch', 'dispatch', 'quit 1', 'dispatch', 'dispatch', 'live', 'dereg 0', 'dereg 1', 'ctxdereg', 'live']
+    g.procs[1] = prog
+    return 'core', g.lines()
+
+def gen_tb_case(rng, P):
+    """token bucket: (rate, burst), bursts of token consuming calls, refills by the bucket timer, reconfiguration, stop"""
+    g = _base(rng, P, 2)
+    prog = ['ctxreg 1', 'reg 0', 'reg 1', 'start 0', 'start 1']
+    rate = rng.choice([1, 2, 5, 1000]); burst = rng.choice([0, 1, 2, 3, 5])
+    prog.append('tb 0 %d %d' % (rate, burst))
+    for _ in range(rng.randint(4, 16)):
+        x = rng.random()
+        if x < 0.5: prog.append(rng.choice(['tell 0 1 %d 0' % g.newdata(), 'sub 0 %d 0 0 1' % rng.choice(TOPICS), 'become 0 1', 'unbecome 0',
+                                            'batchsize 0 2', 'srcreg 0 tmr %d 0 0 0 3' % rng.choice(TMR_KEYS), 'pause 0', 'resume 0', 'publish 0 1 %d 0' % g.newdata()]))
+        elif x < 0.75: prog += ['fire 0 tmr %d' % (1000000000 // rate), 'dispatch']
+        elif x < 0.85: rate = rng.choice([0, 1, 2, 5, 1000]); burst = rng.choice([0, 1, 2, 4]); prog.append('tb 0 %d %d' % (rate, burst)); rate = rate or 1
+        elif x < 0.9: prog += ['stop 0', 'start 0']
+        else: prog.append('dispatch')
+    prog += ['dispatch', 'quit 1', 'dispatch', 'dispatch', 'live', 'dereg 0', 'dereg 1', 'ctxdereg', 'live']
+    g.procs[1] = prog
+    return 'core', g.lines()
+
+def gen_stash_case(rng, P):
+    """a handler that stashes what it receives and later unstashes n (n from 0 to beyond), also from inside the unstash handler; become/stop/start in between"""
+    g = _base(rng, P, 2)
+    specs = []
+    for _ in range(rng.randint(3, 8)):
+        body = []
+        x = rng.random()
+        if x < 0.45: body = ['stash 1 %d' % rng.randint(0, 1)] + (['stash 1 1'] if rng.random() < 0.3 else [])
+        elif x < 0.75: body = ['unstash 1 %d' % rng.randint(0, 4)]
+        elif x < 0.85: body = [rng.choice(['become 1 2', 'unbecome 1', 'evtref 0', 'stop 1', 'pause 1'])]
+        specs.append('%d:1' % (g.newproc(body) if body else 0))
+    g.cbs = ['cb 1 evt 0 ' + ' '.join(specs), 'cb 1 evt 2 ' + ' '.join(reversed(specs))]
+    prog = ['ctxreg 1', 'reg 0', 'reg 1', 'start 0', 'start 1', 'sub 1 1 %d 0 7' % rng.choice([0, 1, 2, 3])]
+    for _ in range(rng.randint(3, 12)):
+        x = rng.random()
+        if x < 0.45: prog.append('tell 0 1 %d %d' % (g.newdata(), 1 if rng.random() < 0.3 else 0))
+        elif x < 0.6: prog.append('publish 0 1 %d 0' % g.newdata())
+        elif x < 0.75: prog.append('unstash 1 %d' % rng.randint(0, 5))
+        elif x < 0.8: prog.append(rng.choice(['stop 1', 'start 1', 'evtunref 0']))
+        prog.append('dispatch')
+    prog += ['unstash 1 9', 'dispatch', 'quit 1', 'dispatch', 'dispatch', 'evtunref 0', 'evtunref 0', 'live', 'dereg 0', 'dereg 1', 'ctxdereg', 'live']
+    g.procs[1] = prog
     return 'core', g.lines()
